@@ -68,7 +68,13 @@ Section Law.
     | Retrait => chk 3 (is_nil (o_calls ob))      (* replacing the trait definition is not an assignment *)
     | QuietAssign _ => []     (* notification switched off by the caller: the statement is silent; compared in Corr.v.
                                  What matters to the law is that the NEXT ordinary assignment notifies again *)
-    | Delete => []            (* `del` is not an assignment: the statement is silent; modelled and compared in Corr.v *)
+    | Delete =>               (* `del` is not an assignment, but what handlers ARE told must be truthful: old = what was
+                                 readable before; new = the value stored afterwards, if one is stored (if none is stored, what
+                                 the next read would produce is judged in Dyn.dlaw_step, which knows whether the default is
+                                 constant or produced afresh) *)
+        chk 6 (forallb (fun c : call => oldv_eqb (snd (fst c)) (OVal (readable E s))
+                                        && match o_slot ob with Some v => v =? snd c | None => true end)
+                       (o_calls ob))
     | Assign v =>
         match e_validate E v with
         | None => chk 3 (is_nil (o_calls ob))
